@@ -36,6 +36,11 @@ var (
 
 const poolSize = 19
 
+// poolAll counts the keys beyond the general pool as well: k19 (self-signed) and k20 (CA-issued) have validity
+// windows that begin and end inside the simulated time span (2030-06-15T12:00Z..2031-06-15T12:00Z and the year 2020).
+// Only the engines that reason about the clock use them.
+const poolAll = 21
+
 // Pool layout (see tools/genkeys): 0,1 plain RSA-2048; 2 RSA-3072 with a
 // high-bit serial; 3 RSA-4096 with leading-zero serial; 4 shares issuer AND
 // serial with 0; 5 shares the serial of 1 under another issuer; 6 shares the
@@ -48,7 +53,7 @@ const poolSize = 19
 func Pool() []*PoolKey {
 	poolOnce.Do(func() {
 		dir := filepath.Join(verifRoot(), "fixtures", "keys")
-		for i := 0; i < poolSize; i++ {
+		for i := 0; i < poolAll; i++ {
 			kb := mustRead(filepath.Join(dir, fmt.Sprintf("k%d.key.pem", i)))
 			cb := mustRead(filepath.Join(dir, fmt.Sprintf("k%d.cert.pem", i)))
 			kblk, _ := pem.Decode(kb)
